@@ -1,12 +1,84 @@
-"""Per-property configuration of the checks: which harness package/test decides it,
-how many generated cases per tier, and the text that goes into the evidence."""
+"""Per-property configuration of the checks: which harness package/test decides it, how many
+generated cases per tier, the text that goes into the evidence (rule, assumptions) and into
+MANIFEST.json (manifest=...).  driver/mkmanifest.py regenerates MANIFEST.json from this file."""
 
 PROPS = {}
+MANIFEST_TEXT = {}
 
 
-def prop(pid, **kw):
+def prop(pid, manifest=None, **kw):
     PROPS[pid] = kw
+    MANIFEST_TEXT[pid] = manifest
 
+
+prop('C17',
+     level='exploration',
+     rule=('generated: law kind (eq/ord on int and string, ContraMap over int and string projections, From wrappers over arbitrary '
+           'tables, monoid/semigroup constructors) x triples of ints (boundary-biased) / strings (pieces incl. empty, proper prefixes, '
+           'multi-byte runes, invalid UTF-8) x projection and operation parameters; oracles: ==, cmp.Compare, strings.Compare, bytes.Compare, '
+           'the base instance applied to projections with an argument-recording asymmetric base, the wrapped function itself; '
+           'non-trivial = the first two arguments differ; distinct = different canonical scenario'),
+     assumptions=['the harness builds against /repo/pure of the working tree (replace directive), not the cached pure v0.10.1'],
+     parts=[
+         dict(name='grid', engine='E7', pkg='c17', test='TestC17Grid', kind='plain', quick=dict(shards=1), thorough=dict(shards=1)),
+         dict(name='rapid', engine='E7', pkg='c17', test='TestC17',
+              quick=dict(cases=150000, shards=1), thorough=dict(cases=2000000, shards=16, timeout=1800)),
+     ],
+     manifest=dict(
+         engine='E7', design_ref='4/C17',
+         technique='property-based testing (rapid): algebraic laws vs built-in operators, order-revealing (asymmetric, argument-recording) witnesses',
+         level_text=('Law instances over generated and boundary values, compared with the built-in operators and with the base instance applied '
+                     'to projections; an asymmetric recording base makes swapped or one-sided projection observable. The code is a handful of '
+                     'total one-line functions, so generated search plus a complete boundary grid is proportionate.'),
+         level_note='trusts Go built-in ==, <, cmp/strings/bytes.Compare as the reference ordering; only the exported Int/String instances exist and are checked'))
+
+prop('C18',
+     level='exploration',
+     rule=('generated: Put/Get/Remove histories of 1..60 (10%: ..200) operations over a key universe of 3..12 keys, three key orders '
+           '(ord.Int, reversed order via ord.From, ord.String over keys with shared prefixes / multi-byte / invalid UTF-8), each history executed '
+           'under 3 drawn height seeds (virtual clock offset inside a synctest bubble, which is what seeds the node heights); oracle: Go map for every '
+           'return value and for Get of the whole universe after EVERY step, plus the parsed String() form after every step (live keys strictly ascending '
+           'under the scenario order and equal to the model key set, forward pointers only to strictly larger live keys); '
+           'non-trivial = the history re-inserts or reads a removed key, overwrites a key, or inserts in descending order; distinct = different canonical scenario'),
+     assumptions=['internal/maplike is exercised as a staged copy of the working-tree sources under the import path github.com/fogfish/golem/maplike',
+                  'node heights are made deterministic through the bubble clock only (no source change): skiplist.New seeds from time.Now()',
+                  'string keys are non-empty and contain no blanks so that the printed form can be parsed unambiguously'],
+     parts=[
+         dict(name='enum', engine='E6', pkg='c18', test='TestC18Enum', kind='plain',
+              quick=dict(shards=4), thorough=dict(shards=16, timeout=3000)),
+         dict(name='rapid', engine='E6', pkg='c18', test='TestC18',
+              quick=dict(cases=15000, shards=4), thorough=dict(cases=80000, shards=16, timeout=3000)),
+     ],
+     manifest=dict(
+         engine='E6', design_ref='4/C18',
+         technique='model-based property testing (rapid histories + exhaustive short histories) against a Go map, structural invariants parsed from String(), deterministic node heights via synctest clock',
+         level_text=('Operation histories against a reference map with the full key universe re-read and the printed structure re-validated after every '
+                     'step, under several node-height seeds; all histories up to a bound over 3 keys are enumerated. Exploration with a strong oracle is '
+                     'appropriate for a sequential data structure whose bugs (lost fingers, stale pointers after Remove) need specific height patterns.'),
+         level_note='trusts the Go map model and the parser of the printed form; heights are sampled (3 seeds per history), not enumerated'))
+
+prop('C19',
+     level='exploration',
+     rule=('generated: scripts of 1..24 operations (New with 0..5 elements and 0..3 hidden spare capacity behind the variadic slice, Cons, Tail, '
+           'Head, Length, IsEmpty, Fold with (a*31+b) mod p from a non-neutral Empty) over a growing register file, register indices taken modulo the '
+           'registers existing; executed in lock-step on list.Trait[int], slice.Trait[int] and a [][]int model; after EVERY step every register is '
+           're-read through Head/Tail/IsEmpty on both implementations and compared with the model (persistence); '
+           'non-trivial = some Cons on a register of length >= 1 or Tail on a register of length >= 2 (so a register is re-read after being extended/cut); '
+           'distinct = different canonical script'),
+     assumptions=['internal/seq is exercised as a staged copy of the working-tree sources under the import path github.com/fogfish/golem/seq',
+                  'Head/Tail of an empty sequence are outside the statement and are not generated'],
+     parts=[
+         dict(name='enum', engine='E6', pkg='c19', test='TestC19Enum', kind='plain', quick=dict(shards=1), thorough=dict(shards=1, timeout=1800)),
+         dict(name='rapid', engine='E6', pkg='c19', test='TestC19',
+              quick=dict(cases=40000, shards=1), thorough=dict(cases=400000, shards=16, timeout=1800)),
+     ],
+     manifest=dict(
+         engine='E6', design_ref='4/C19',
+         technique='model-based property testing (rapid state scripts + exhaustive short scripts): two implementations vs a slice-of-slices model, persistence re-read after every step',
+         level_text=('Operation scripts against a reference model, both implementations in lock-step, every register re-read after every step so that '
+                     'aliasing between a sequence and the sequences derived from it (the classic slice-append bug) is observable; all scripts up to a '
+                     'bound over a small alphabet are enumerated. Exploration is the right level for a 40-line ADT.'),
+         level_note='trusts the [][]int model and reflect.DeepEqual; element type int only'))
 
 prop('C20',
      level='exploration',
@@ -21,16 +93,11 @@ prop('C20',
               quick=dict(shards=1), thorough=dict(shards=1)),
          dict(name='rapid', engine='E7', pkg='c20', test='TestC20',
               quick=dict(cases=40000, shards=1), thorough=dict(cases=800000, shards=16, timeout=1800)),
-     ])
-
-# ---------------------------------------------------------------------------------------------
-# Text for MANIFEST.json (driver/mkmanifest.py)
-MANIFEST_TEXT = {}
-
-MANIFEST_TEXT['C20'] = dict(
-    engine='E7', design_ref='4/C20',
-    technique='property-based testing (rapid): generated function families vs left-fold oracle, call counters',
-    level_text=('Generated search over N, function families and arguments with a fold oracle and call counters; every N in 2..20 is '
-                'additionally covered deterministically. Exploration is the right level: the 19 bodies are parametric one-liners, any '
-                'transposition/omission/duplication/extra call changes a position-tagged trace or a counter on the first case.'),
-    level_note='trusts the Go compiler and the staging copy (driver copies internal/pipe/*.go verbatim on every run); absence is not proven beyond the generated cases')
+     ],
+     manifest=dict(
+         engine='E7', design_ref='4/C20',
+         technique='property-based testing (rapid): generated function families vs left-fold oracle, call counters',
+         level_text=('Generated search over N, function families and arguments with a fold oracle and call counters; every N in 2..20 is '
+                     'additionally covered deterministically. Exploration is the right level: the 19 bodies are parametric one-liners, any '
+                     'transposition/omission/duplication/extra call changes a position-tagged trace or a counter on the first case.'),
+         level_note='trusts the Go compiler and the staging copy (driver copies internal/pipe/*.go verbatim on every run); absence is not proven beyond the generated cases'))
